@@ -39,12 +39,12 @@ type jv struct {
 	vals []*jv
 }
 
-func jnull() *jv           { return &jv{k: jNull} }
-func jstr(s string) *jv    { return &jv{k: jStr, s: s} }
-func jnum(raw string) *jv  { return &jv{k: jNum, s: raw} }
-func jbool(b bool) *jv     { return &jv{k: jBool, b: b} }
+func jnull() *jv            { return &jv{k: jNull} }
+func jstr(s string) *jv     { return &jv{k: jStr, s: s} }
+func jnum(raw string) *jv   { return &jv{k: jNum, s: raw} }
+func jbool(b bool) *jv      { return &jv{k: jBool, b: b} }
 func jarr(items ...*jv) *jv { return &jv{k: jArr, arr: items} }
-func jobj() *jv            { return &jv{k: jObj} }
+func jobj() *jv             { return &jv{k: jObj} }
 
 func (v *jv) isNull() bool { return v == nil || v.k == jNull }
 
